@@ -139,6 +139,11 @@ func (c *SimClient) deliver(msg *ServerComMessage) {
 		}
 	}
 	c.observe(msg)
+	if msg.Ctrl != nil && msg.Ctrl.Code == 205 && msg.Ctrl.Topic == "" && msg.Ctrl.Id == "" {
+		// the server evicted the whole session (account suspended/deleted): a real client sees the stream end
+		w.rt.Logf("evicted c%d", c.Idx)
+		c.disconnect()
+	}
 }
 
 func frameID(m *ServerComMessage) string {
